@@ -14,9 +14,11 @@ import (
 	"path/filepath"
 	"strings"
 	"sync"
+	"syscall"
 	"time"
 
 	wt "github.com/hnakamur/whispertool"
+	"github.com/hnakamur/whispertool/cmd"
 )
 
 func init() {
@@ -314,4 +316,66 @@ func init() {
 		time.Sleep(300 * time.Millisecond)
 		s.obs("cliabort done")
 	}
+}
+
+func init() {
+	// cligenheld dest=NAME layout=..: generate is one session on the file it creates -- the path exists and is
+	// locked from the creation until the command returns.  The report goes to a FIFO nobody drains until the
+	// lock has been watched, so the command is held in the middle of its session.
+	handlers["cligenheld"] = func(s *sess, tk []string) {
+		a := parseKV(tk[1:])
+		s.closeAll()
+		dest := filepath.Join(s.dir, a["dest"])
+		must(os.MkdirAll(filepath.Dir(dest), 0755))
+		fifo := filepath.Join(s.dir, "gen.fifo")
+		os.Remove(fifo)
+		must(syscall.Mkfifo(fifo, 0600))
+		result := make(chan string, 1)
+		go func() {
+			r, err := os.OpenFile(fifo, os.O_RDONLY, 0)
+			if err != nil {
+				result <- "fifoerr"
+				return
+			}
+			res := probeHeld(dest)
+			io.Copy(io.Discard, r)
+			r.Close()
+			result <- res
+		}()
+		c := &cmd.GenerateCommand{Dest: dest, Perm: 0644, AggregationMethod: wt.Sum, XFilesFactor: 0.5,
+			ArchiveInfoList: layoutFromCSV(a["layout"]), RandMax: 10, Fill: true, TextOut: fifo}
+		err, panicked := runCmd(c.Execute)
+		s.echo(strings.Join(tk, " "))
+		s.obs("cligenheld %s %s", statusOf(err, panicked), <-result)
+	}
+}
+
+func init() {
+	// hremote kind=view|viewraw len=N body=HEX: the remote-read client against a server whose answer announces
+	// N body bytes (Content-Length) and sends the bytes HEX, then closes the connection.  The client runs in a
+	// child process; its allocation is held against the bytes that really arrived.
+	register("hremote", func(s *sess, tk []string) {
+		a := parseKV(tk[1:])
+		body := unhex(a.str("body", "-"))
+		l, err := net.Listen("tcp", "127.0.0.1:0")
+		must(err)
+		defer l.Close()
+		go func() {
+			for {
+				c, err := l.Accept()
+				if err != nil {
+					return
+				}
+				go func(c net.Conn) {
+					defer c.Close()
+					buf := make([]byte, 4096)
+					c.SetReadDeadline(time.Now().Add(2 * time.Second))
+					c.Read(buf)
+					fmt.Fprintf(c, "HTTP/1.1 200 OK\r\nContent-Type: application/octet-stream\r\nContent-Length: %s\r\nConnection: close\r\n\r\n", a["len"])
+					c.Write(body)
+				}(c)
+			}
+		}()
+		s.obs("hremote %s", runChild("rview", "http://"+l.Addr().String(), a.str("kind", "view"), fmt.Sprint(len(body))))
+	})
 }
